@@ -40,6 +40,7 @@ namespace net
     O_N8_DL = 1u << 14,
     O_N8_OV = 1u << 15,
     O_X = 1u << 16, // unexpected exception from the API
+    O_N10 = 1u << 18,  // a theory keeps listening to each of its literals that is not fixed at root level (structural: sat_core's binding map)
     O_N9_DL = 1u << 17 // DL: every hop of the stored shortest-path trees is an enforced constraint of exactly that weight (what explanations walk)
   };
 
@@ -66,6 +67,14 @@ namespace net
   {
     std::vector<std::pair<int, lit>> vals; // value id -> literal
     bool enforce = false;
+  };
+  struct Guard
+  { // a literal owned by a simulated client of the LRA theory: while it is true the client has imposed `atom` directly (set_lb/set_ub)
+    smt::var g;
+    bool defined = false;
+    int x = 0, kind = 0; // 0 lower, 1 upper, 2 both
+    Qx val;
+    FP atom;
   };
   struct PoolVal : public smt::var_value
   {
@@ -111,6 +120,7 @@ namespace net
     std::set<size_t> lra_internal;               // slack variables created inside the theory (meaning unknown here)
     int n_idl = 1, n_rdl = 1;                // including origin 0
     std::vector<OVar> ovars;
+    std::vector<Guard> guards;
     std::vector<PoolVal *> pool;
     std::vector<Construct> constructs;
     std::vector<FP> facts;
@@ -185,6 +195,7 @@ namespace net
     void op_ovar2(const Op &op);
     void op_oeq(const Op &op);
     void op_assume(lit p);
+    void op_cbound(const Op &op);
     void op_sweep(const Op &op);
     void ensure_clean();
     bool identify_pair(int th, const std::vector<smt::var> &inner, std::vector<DLEdge> &edges);
@@ -197,6 +208,7 @@ namespace net
     void check_pending_clauses();
     void check_dl(int th);
     void check_dl_tree(int th);
+    void check_listening();
     void check_ov();
     void check_lra();
     void check_snapshots(size_t level_before);
